@@ -282,7 +282,21 @@ func relRef(from, to string) string {
 }
 
 var BundleTargets = []string{"localDef", "remoteDef", "remoteChain", "remoteRecursive", "remoteCrossFileCycle", "remoteSiblingCircular", "selfRecursive", "mutualRecursive", "arrayOfSelf", "mapOfSelf",
-	"anonProperty", "anonItems", "anonAllOf", "anonAdditionalProperties", "anonSharedParam", "anonSharedResponse"}
+	"anonProperty", "anonItems", "anonAllOf", "anonAdditionalProperties", "anonSharedParam", "anonSharedResponse",
+	"inlineObject", "inlineTuple", "inlineAllOf"}
+
+// InlineLeaf returns, for the "inline*" target kinds, the complex schema planted in place of a $ref (nil otherwise).
+func (b *Bundle) InlineLeaf(kind string) jx.Obj {
+	switch kind {
+	case "inlineObject":
+		return b.Obj()
+	case "inlineTuple":
+		return jx.Obj{"type": "array", "description": b.lbl("itup"), "items": jx.Arr{jx.Obj{"type": "string"}, b.Obj()}}
+	case "inlineAllOf":
+		return jx.Obj{"description": b.lbl("iall"), "allOf": jx.Arr{b.Obj(), jx.Obj{"$ref": b.Target("localDef", "")}}}
+	}
+	return nil
+}
 
 // Target creates the target of the given kind and returns the $ref string (as seen from the root) denoting it.
 // name, when non-empty, is used for the definition that is (or hosts) the target.
@@ -410,8 +424,11 @@ func (b *Bundle) Plant(holder, container, target string, depth int) {
 	if b.hostile && Chance(b.rng, 60) {
 		name = AnyName(b.rng, true, b.id())
 	}
-	ref := b.Target(target, name)
-	b.Place(container, b.Hold(holder, jx.Obj{"$ref": ref}, depth, key), "")
+	leaf := b.InlineLeaf(target)
+	if leaf == nil {
+		leaf = jx.Obj{"$ref": b.Target(target, name)}
+	}
+	b.Place(container, b.Hold(holder, leaf, depth, key), "")
 	b.Tag("holder:" + holder)
 	b.Tag("container:" + container)
 	b.Tag("target:" + target)
